@@ -8,6 +8,7 @@
 (*   mutator   GM1 = MStart;MPin;MBuild   (call start .. tree built)       *)
 (*             GM2 = MPub;MEnd            (rootCAS .. call end)            *)
 (*   reader    GR1 = RStart;RPin          (call start .. version pinned)   *)
+(*             GRc = (inside REnd)        (.. parked in a visitor callback)*)
 (*             GR2 = REnd                 (read the pinned version .. end) *)
 (*   flusher   GF1 = FStart;FPin(first)   (.. first collection pinned)     *)
 (*             GF2 = FPin(next)           (.. next collection pinned)      *)
@@ -19,21 +20,22 @@
 (***************************************************************************)
 EXTENDS Conc, Json
 
-CONSTANT ReadsPerReader
-VARIABLE hist
-svars == <<live, mpc, mi, mbase, rpc, rcoll, rlo, rpin, rres, fpc, fdone, flo, fpin, ffloor, fleft, persisted, hist>>
+CONSTANTS ReadsPerReader,
+          CallbackYields   \* a visiting reader can also be stopped inside its visitor callback this many times
+VARIABLES hist, rcb
+svars == <<live, mpc, mi, mbase, rpc, rcoll, rlo, rpin, rres, fpc, fdone, flo, fpin, ffloor, fleft, persisted, hist, rcb>>
 
 G(a) == hist' = Append(hist, a)
 
-SInit == Init /\ hist = <<>>
+SInit == Init /\ hist = <<>> /\ rcb = [r \in Readers |-> 0]
 
 GM1 == /\ mpc = "idle" /\ mi <= Len(MutProg)
-       /\ mbase' = live[MutProg[mi]] /\ mpc' = "built" /\ G("m")
+       /\ mbase' = live[MutProg[mi]] /\ mpc' = "built" /\ G("m") /\ UNCHANGED rcb
        /\ UNCHANGED <<live, mi, rpc, rcoll, rlo, rpin, rres, fpc, fdone, flo, fpin, ffloor, fleft, persisted>>
 GM2 == /\ mpc = "built"
        /\ live[MutProg[mi]] = mbase            \* single mutator: the CAS cannot fail (NoLostUpdate)
        /\ live' = [live EXCEPT ![MutProg[mi]] = @ + 1]
-       /\ mpc' = "idle" /\ mi' = mi + 1 /\ mbase' = None /\ G("m")
+       /\ mpc' = "idle" /\ mi' = mi + 1 /\ mbase' = None /\ G("m") /\ UNCHANGED rcb
        /\ UNCHANGED <<rpc, rcoll, rlo, rpin, rres, fpc, fdone, flo, fpin, ffloor, fleft, persisted>>
 
 \* reader r reads collection ((r + number of its reads so far) mod |Colls|): deterministic program
@@ -47,9 +49,13 @@ GR1(r) == /\ rpc[r] = "idle" /\ Len(rres[r]) < ReadsPerReader
           /\ LET c == RColl(r)
              IN /\ rcoll' = [rcoll EXCEPT ![r] = c] /\ rlo' = [rlo EXCEPT ![r] = live[c]]
                 /\ rpin' = [rpin EXCEPT ![r] = live[c]]
-          /\ rpc' = [rpc EXCEPT ![r] = "pinned"] /\ G("r" \o ToString(r))
+          /\ rpc' = [rpc EXCEPT ![r] = "pinned"] /\ G("r" \o ToString(r)) /\ UNCHANGED rcb
           /\ UNCHANGED <<live, mpc, mi, mbase, rres, fpc, fdone, flo, fpin, ffloor, fleft, persisted>>
-GR2(r) == /\ REnd(r) /\ G("r" \o ToString(r))
+\* parked inside the visitor callback: the version stays pinned, nothing shared changes
+GRc(r) == /\ rpc[r] = "pinned" /\ rcb[r] < CallbackYields
+          /\ rcb' = [rcb EXCEPT ![r] = @ + 1] /\ G("r" \o ToString(r))
+          /\ UNCHANGED <<live, mpc, mi, mbase, rpc, rcoll, rlo, rpin, rres, fpc, fdone, flo, fpin, ffloor, fleft, persisted>>
+GR2(r) == /\ rcb[r] = CallbackYields /\ REnd(r) /\ rcb' = [rcb EXCEPT ![r] = 0] /\ G("r" \o ToString(r))
 
 GF1 == /\ fpc = "idle" /\ fdone < NFlush
        /\ LET c == MinOf(Colls)
@@ -58,16 +64,16 @@ GF1 == /\ fpc = "idle" /\ fdone < NFlush
              /\ ffloor' = [d \in Colls |-> IF d > c THEN live[d] ELSE 0]
              /\ fleft' = Colls \ {c}
              /\ fpc' = IF Colls = {c} THEN "writing" ELSE "pinning"
-       /\ G("f")
+       /\ G("f") /\ UNCHANGED rcb
        /\ UNCHANGED <<live, mpc, mi, mbase, rpc, rcoll, rlo, rpin, rres, fdone, persisted>>
-GF2 == /\ fpc = "pinning" /\ FPin(MinOf(fleft)) /\ G("f")
+GF2 == /\ fpc = "pinning" /\ FPin(MinOf(fleft)) /\ G("f") /\ UNCHANGED rcb
 GF3 == /\ fpc = "writing"
        /\ fpc' = "idle" /\ fdone' = fdone + 1
        /\ persisted' = Append(persisted, [vers |-> fpin, lo |-> flo, hi |-> live, floor |-> ffloor])
-       /\ G("f")
+       /\ G("f") /\ UNCHANGED rcb
        /\ UNCHANGED <<live, mpc, mi, mbase, rpc, rcoll, rlo, rpin, rres, flo, fpin, ffloor, fleft>>
 
-SNext == GM1 \/ GM2 \/ (\E r \in Readers : GR1(r) \/ GR2(r)) \/ GF1 \/ GF2 \/ GF3
+SNext == GM1 \/ GM2 \/ (\E r \in Readers : GR1(r) \/ GRc(r) \/ GR2(r)) \/ GF1 \/ GF2 \/ GF3
 SSpec == SInit /\ [][SNext]_svars
 
 AllDone == /\ mi > Len(MutProg) /\ mpc = "idle"
